@@ -112,11 +112,16 @@ func (s *SessionVariables) Equals(dst *SessionVariables) bool {
 //
 // SetEqualsWith ensures that s.variables reflect exactly what is in dst.variables post-execution, with any extraneous variables moved to unused.
 func (s *SessionVariables) SetEqualsWith(dst *SessionVariables) ( /*changed*/ bool, error) {
+	// variables still waiting to be reset (left over by Invalidate after a rejected SET)
+	// must reach the backend even if nothing else differs
+	pending := len(s.unused) != 0
+
 	if len(s.variables) == 0 && len(dst.variables) != 0 {
 		for _, v := range dst.variables {
 			if err := s.Set(v.Name(), v.Get()); err != nil {
 				return false, err
 			}
+			delete(s.unused, v.Name())
 		}
 		return true, nil
 	}
@@ -148,6 +153,7 @@ func (s *SessionVariables) SetEqualsWith(dst *SessionVariables) ( /*changed*/ bo
 			}
 			changed = true
 		}
+		delete(s.unused, name)
 	}
 
 	// 检查源中有而目标中没有的变量，这些变量应被视为不再使用
@@ -159,7 +165,23 @@ func (s *SessionVariables) SetEqualsWith(dst *SessionVariables) ( /*changed*/ bo
 		}
 	}
 
-	return changed, nil
+	return changed || pending, nil
+}
+
+// Invalidate is called when the SET statement generated from this set was rejected by the
+// backend. The backend applies a SET atomically, so none of it took effect and the values
+// recorded here no longer describe the backend session. Every variable that may have a
+// non-default value there (the current ones and the ones the failed statement was about to
+// reset, passed in flushed) is queued for reset, which also forces the next
+// SetEqualsWith to report a change and the whole state to be sent again.
+func (s *SessionVariables) Invalidate(flushed map[string]*Variable) {
+	for name, v := range flushed {
+		s.unused[name] = v
+	}
+	for name, v := range s.variables {
+		s.unused[name] = v
+		delete(s.variables, name)
+	}
 }
 
 // Delete delete variables with specific key
